@@ -380,6 +380,14 @@ pub fn run(sc: &Value) -> Vec<Value> {
                         let o = FileOptions::default().compression_method(CompressionMethod::Stored);
                         let ok = if op["dirs_every"].as_u64().map_or(false, |d| d > 0 && i % d == 0) {
                             w.add_directory(format!("{}{}", pre, i), o).is_ok()
+                        } else if let Some(xl) = op.get("cextra").and_then(|x| x.as_u64()) {
+                            // a central-only extra record of xl bytes (zero body): makes the DIRECTORY large while the entries stay small
+                            let mut rec = vec![0u8; xl as usize];
+                            rec[0] = 0xef;
+                            rec[1] = 0xbe;
+                            rec[2..4].copy_from_slice(&((xl - 4) as u16).to_le_bytes());
+                            w.start_file_with_extra_data(format!("{}{}", pre, i), o).is_ok() && w.end_local_start_central_extra_data().is_ok()
+                                && w.write_all(&rec).is_ok() && w.end_extra_data().is_ok() && w.write_all(&data).is_ok()
                         } else {
                             w.start_file(format!("{}{}", pre, i), o).is_ok() && w.write_all(&data).is_ok()
                         };
